@@ -257,6 +257,15 @@ func genC19(seed uint64, run int, tier string) *Plan {
 			tp.Ops = append(tp.Ops, Op{K: "dropIndex", DB: "db", C: c, Name: pick(r, "d_1", "d2_1")})
 		case k < 16:
 			tp.Ops = append(tp.Ops, Op{K: "e.expire"})
+			if p.Cfg.Store == "file" && r.IntN(2) == 0 {
+				// the TTL definitions must survive closing and reopening the file
+				tp.Ops = append(tp.Ops, Op{K: "restart"})
+			}
+			if r.IntN(4) == 0 {
+				// expiry is a single-field index option: on a compound index it must not make documents expire
+				ttl := int32(pick(r, 0, 1, 60))
+				tp.Ops = append(tp.Ops, Op{K: "createIndex", DB: "db", C: c, D: jd(bson.D{{Key: pick(r, "d", "d2"), Value: int32(1)}, {Key: "a", Value: int32(1)}}), TTL: &ttl})
+			}
 		case k < 17:
 			tp.Ops = append(tp.Ops, Op{K: "clock", Ms: pick(r, int64(1500), 61000, 3700000, -1500, -3700000)})
 		default:
